@@ -680,6 +680,7 @@ func runAliasing(p *Program, c *Collector, a FuncRuleSpec) {
 	}
 	n += runSharedMaps(p, c, a)
 	runPresizedHoles(p, c, a)
+	runDoubleRegistration(p, c, a)
 	if n == 0 {
 		c.Ob(a.Props, "E7.pointer-aliasing", "alias:"+strings.Join(a.Funcs, ","), Discharged, a.What+": no address of a variable is stored in a container", "", true)
 	}
@@ -1666,6 +1667,296 @@ func runPresizedHoles(p *Program, c *Collector, a FuncRuleSpec) {
 					c.Ob(a.Props, "E7.presized-holes", key, Violated, a.What+": "+bad, p.InstrPos(ms), false)
 				} else {
 					c.Ob(a.Props, "E7.presized-holes", key, Discharged, "every iteration stores its element", p.InstrPos(ms), true)
+				}
+			}
+		}
+	}
+}
+
+
+// ---------------------------------------------------------------------------------------------
+// double registration: a helper appends a record to a container of the object it is given AND returns that record; a caller
+// that appends the returned record to the same container of the same object lists it twice.
+
+type recRet struct {
+	param  int
+	field  int
+	result int
+	at     ssa.Instruction
+}
+
+// appendedValues: for a store  obj.F = append(obj.F, v…)  return obj, F and the appended values.
+func appendedValues(st *ssa.Store) (obj ssa.Value, field int, vals []ssa.Value, ok bool) {
+	fa, isFA := st.Addr.(*ssa.FieldAddr)
+	if !isFA {
+		return nil, 0, nil, false
+	}
+	call, isCall := st.Val.(*ssa.Call)
+	if !isCall {
+		return nil, 0, nil, false
+	}
+	if b, isB := call.Call.Value.(*ssa.Builtin); !isB || b.Name() != "append" || len(call.Call.Args) != 2 {
+		return nil, 0, nil, false
+	}
+	sl, isSl := call.Call.Args[1].(*ssa.Slice)
+	if !isSl {
+		return nil, 0, nil, false
+	}
+	arr, isAl := sl.X.(*ssa.Alloc)
+	if !isAl || arr.Referrers() == nil {
+		return nil, 0, nil, false
+	}
+	for _, r := range *arr.Referrers() {
+		if ia, isIA := r.(*ssa.IndexAddr); isIA && ia.Referrers() != nil {
+			for _, r2 := range *ia.Referrers() {
+				if s2, isSt := r2.(*ssa.Store); isSt && s2.Addr == ssa.Value(ia) {
+					vals = append(vals, s2.Val)
+				}
+			}
+		}
+	}
+	return fa.X, fa.Field, vals, len(vals) > 0
+}
+
+// phiOrigins: the values v can stand for: phi operands; a load of a local cell stands for the cell (two loads of one cell
+// denote the same record provided the cell is not written in between, which the callers check).
+func phiOrigins(v ssa.Value, seen map[ssa.Value]bool, out *[]ssa.Value) {
+	if v == nil || seen[v] {
+		return
+	}
+	seen[v] = true
+	if ph, ok := v.(*ssa.Phi); ok {
+		for _, e := range ph.Edges {
+			phiOrigins(e, seen, out)
+		}
+		return
+	}
+	if ld, ok := v.(*ssa.UnOp); ok && ld.Op == token.MUL {
+		if al, ok := ld.X.(*ssa.Alloc); ok {
+			*out = append(*out, al)
+			return
+		}
+	}
+	*out = append(*out, v)
+}
+
+// cellWrittenAfter: some store to the local cell (whole or one field) can execute after instruction `from`.
+func cellWrittenAfter(al *ssa.Alloc, from ssa.Instruction) bool {
+	check := func(st *ssa.Store) bool {
+		if st.Block() == from.Block() {
+			after := false
+			for _, in := range from.Block().Instrs {
+				if in == from {
+					after = true
+				} else if after && in == ssa.Instruction(st) {
+					return true
+				}
+			}
+			return reaches(from.Block(), from.Block()) && false
+		}
+		return reaches(from.Block(), st.Block())
+	}
+	if al.Referrers() == nil {
+		return false
+	}
+	for _, r := range *al.Referrers() {
+		switch u := r.(type) {
+		case *ssa.Store:
+			if u.Addr == ssa.Value(al) && check(u) {
+				return true
+			}
+		case *ssa.FieldAddr:
+			if u.Referrers() != nil {
+				for _, r2 := range *u.Referrers() {
+					if st, ok := r2.(*ssa.Store); ok && st.Addr == ssa.Value(u) && check(st) {
+						return true
+					}
+				}
+			}
+		}
+	}
+	return false
+}
+
+var recRetMemo = map[*ssa.Function][]recRet{}
+
+func recordsAndReturns(fn *ssa.Function) []recRet {
+	if r, ok := recRetMemo[fn]; ok {
+		return r
+	}
+	var out []recRet
+	appended := map[ssa.Value][]recRet{} // value -> (param, field)
+	for _, b := range fn.Blocks {
+		for _, in := range b.Instrs {
+			st, ok := in.(*ssa.Store)
+			if !ok {
+				continue
+			}
+			obj, field, vals, ok := appendedValues(st)
+			if !ok {
+				continue
+			}
+			for i, prm := range fn.Params {
+				if ssa.Value(prm) == obj {
+					for _, v := range vals {
+						var os []ssa.Value
+						phiOrigins(v, map[ssa.Value]bool{}, &os)
+						for _, o := range os {
+							if al, isCell := o.(*ssa.Alloc); isCell && cellWrittenAfter(al, st) {
+								continue
+							}
+							appended[o] = append(appended[o], recRet{param: i, field: field, at: st})
+						}
+					}
+				}
+			}
+		}
+	}
+	// transitively: the result of a callee that records-and-returns into the object this function passes on
+	recRetMemo[fn] = nil // recursion guard
+	for _, b := range fn.Blocks {
+		for _, in := range b.Instrs {
+			call, ok := in.(*ssa.Call)
+			if !ok {
+				continue
+			}
+			f2 := call.Call.StaticCallee()
+			if f2 == nil || f2 == fn || len(f2.Blocks) == 0 {
+				continue
+			}
+			for _, rr := range recordsAndReturns(f2) {
+				if rr.param >= len(call.Call.Args) {
+					continue
+				}
+				for i, prm := range fn.Params {
+					if ssa.Value(prm) != call.Call.Args[rr.param] {
+						continue
+					}
+					var res ssa.Value = call
+					if f2.Signature.Results().Len() > 1 {
+						res = nil
+						if call.Referrers() != nil {
+							for _, r := range *call.Referrers() {
+								if ex, ok := r.(*ssa.Extract); ok && ex.Index == rr.result {
+									res = ex
+								}
+							}
+						}
+					}
+					if res == nil {
+						continue
+					}
+					appended[res] = append(appended[res], recRet{param: i, field: rr.field, at: call})
+					// kept in a local cell
+					if res.Referrers() != nil {
+						for _, r := range *res.Referrers() {
+							if st, ok := r.(*ssa.Store); ok && st.Val == res {
+								if al, ok := st.Addr.(*ssa.Alloc); ok && !cellWrittenAfter(al, st) {
+									appended[al] = append(appended[al], recRet{param: i, field: rr.field, at: call})
+								}
+							}
+						}
+					}
+				}
+			}
+		}
+	}
+	if len(appended) > 0 {
+		for _, b := range fn.Blocks {
+			for _, in := range b.Instrs {
+				ret, ok := in.(*ssa.Return)
+				if !ok {
+					continue
+				}
+				for ri, res := range ret.Results {
+					var origins []ssa.Value
+					phiOrigins(res, map[ssa.Value]bool{}, &origins)
+					for _, o := range origins {
+						for _, rr := range appended[o] {
+							rr.result = ri
+							out = append(out, rr)
+						}
+					}
+				}
+			}
+		}
+	}
+	recRetMemo[fn] = out
+	return out
+}
+
+func runDoubleRegistration(p *Program, c *Collector, a FuncRuleSpec) {
+	for _, g := range expandFuncs(p, c, a.Funcs, a.Props...) {
+		for _, b := range g.Blocks {
+			for _, in := range b.Instrs {
+				call, ok := in.(*ssa.Call)
+				if !ok {
+					continue
+				}
+				f := call.Call.StaticCallee()
+				if f == nil || f.Pkg == nil || !p.Own[f.Pkg.Pkg] || len(f.Blocks) == 0 {
+					continue
+				}
+				for _, rr := range recordsAndReturns(f) {
+					if rr.param >= len(call.Call.Args) {
+						continue
+					}
+					obj := call.Call.Args[rr.param]
+					// the value the caller receives
+					var got []ssa.Value
+					if f.Signature.Results().Len() == 1 {
+						got = append(got, call)
+					} else if call.Referrers() != nil {
+						for _, r := range *call.Referrers() {
+							if ex, ok := r.(*ssa.Extract); ok && ex.Index == rr.result {
+								got = append(got, ex)
+							}
+						}
+					}
+					// …possibly kept in a local variable
+					for _, gv := range append([]ssa.Value{}, got...) {
+						if gv.Referrers() == nil {
+							continue
+						}
+						for _, r := range *gv.Referrers() {
+							if st, ok := r.(*ssa.Store); ok && st.Val == gv {
+								if al, ok := st.Addr.(*ssa.Alloc); ok {
+									got = append(got, al)
+								}
+							}
+						}
+					}
+					key := fmt.Sprintf("doublereg:%s result of %s", p.FuncKey(g), shortFn(p.FuncKey(f)))
+					bad := ""
+					for _, b2 := range g.Blocks {
+						for _, in2 := range b2.Instrs {
+							st, ok := in2.(*ssa.Store)
+							if !ok {
+								continue
+							}
+							obj2, field2, vals, ok := appendedValues(st)
+							if !ok || obj2 != obj || field2 != rr.field {
+								continue
+							}
+							for _, v := range vals {
+								var origins []ssa.Value
+								phiOrigins(v, map[ssa.Value]bool{}, &origins)
+								for _, o := range origins {
+									for _, gv := range got {
+										if o == gv {
+											bad = fmt.Sprintf("%s appends a record to the container of the object it is given (%s) and also returns it; %s appends the returned record to the same container again (%s)",
+												shortFn(p.FuncKey(f)), p.InstrPos(rr.at), shortFn(p.FuncKey(g)), p.InstrPos(st))
+										}
+									}
+								}
+							}
+						}
+					}
+					if bad != "" {
+						c.Ob(a.Props, "E7.double-registration", key, Violated, a.What+": "+bad+": the record is listed twice", p.InstrPos(call), false)
+					} else {
+						c.Ob(a.Props, "E7.double-registration", key, Discharged, "the returned record is not appended again by the caller", p.InstrPos(call), true)
+					}
 				}
 			}
 		}
